@@ -144,19 +144,33 @@ def refactor(tag, r, sid):
     if not all(res.get(k) for k in ("applies", "equiv_clean_exit0", "equiv_same_digest", "tests_unchanged")):
         print("NOT CONFIRMED as behaviour-preserving - not kept")
         return
-    c = check(tag.lstrip("R"), None, src=d)
-    if c is None:
-        return
+    # in-memory replay through all 19 rule sets against a pristine snapshot (nothing in /repo is touched)
+    import re
+    snap = os.environ.get("TRY_REPO", "/tmp/repo_clean")
+    rc, out = sh(f"TRY_REPO={snap} /venv/bin/python /verif/tools_try.py {d}/patch.diff", "/verif")
+    alarms, cur = {}, None
+    for l in out.splitlines():
+        mm = re.match(r"^(C\d\d) (FAIL|REFUSED)", l)
+        if mm:
+            cur = mm.group(1)
+            alarms[cur] = dict(verdict="FALSE-ALARM" if mm.group(2) == "FAIL" else "REFUSED", lines=[])
+        elif cur and l.startswith("   "):
+            alarms[cur]["lines"].append(l.strip()[:300])
+        elif "Traceback" in l or "patch does not apply" in l:
+            alarms["_tool"] = dict(verdict="REFUSED", lines=[l])
     dst = f"/verif/seeded/refactors/{sid}"
     os.makedirs(dst, exist_ok=True)
     for f in ("patch.diff", "equiv.py", "note.md"):
         if os.path.exists(f"{d}/{f}"):
             shutil.copy(f"{d}/{f}", f"{dst}/{f}")
-    verdict = "FALSE-ALARM" if any(v["exit"] == 1 for v in c.values()) else ("REFUSED" if any(v["exit"] == 2 for v in c.values()) else "silent")
-    meta = dict(id=sid, property=tag.lstrip("R"), kind="behaviour-preserving refactoring (independent sub-agent)", confirmed=res,
-                base_commit=sh("git rev-parse --short HEAD", wt)[1].strip(), first_verdict=verdict, first_result=c, verdict=verdict, result=c)
+    verdict = "FALSE-ALARM" if any(v["verdict"] == "FALSE-ALARM" for v in alarms.values()) else ("REFUSED" if alarms else "silent")
+    engine = sh("git rev-parse --short HEAD", "/verif")[1].strip()
+    prop = re.sub(r"^[RS]", "", tag)
+    meta = dict(id=sid, property=prop, kind="behaviour-preserving refactoring (independent sub-agent)", confirmed=res,
+                base_commit=sh("git rev-parse --short HEAD", wt)[1].strip(), first_engine=engine + " (+ working tree)", first_verdict=verdict, first_alarms=alarms,
+                verdict=verdict, alarms=alarms, how="in-memory replay of patch.diff on /repo HEAD through all 19 rule sets (tools_try.py)")
     json.dump(meta, open(f"{dst}/meta.json", "w"), indent=1)
-    print(sid, verdict)
+    print(sid, verdict, sorted(alarms))
 
 
 def sweep_refactors():
